@@ -1,16 +1,25 @@
 (* C28 — noiseless evolution conserves norm, and energy when the drive is constant.
-   IMPORTANT: the conservation laws themselves are NOT proved here (they need the matrix exponential and,
-   for emu-mps, control of the truncation).  They are VALIDATED on the real backends by tools/props/c28.py.
-   What is proved is the algebraic reason they hold in exact arithmetic: the operator handed to krylov_exp by
+   Two layers.  (A) Whole-run conservation in EXACT arithmetic over an abstract non-commutative matrix
+   *-algebra (Model/StarAlg.v) in which the matrix exponential is an operation constrained only by the record
+   StarLaws: its three laws  exp(A^+) = exp(A)^+,  exp(A) exp(-A) = 1,  A exp(c.A) = exp(c.A) A  are PREMISES of
+   every theorem (not proved: exp is abstract), together with the usual *-algebra / inner-product laws.
+   From them: every propagator exp(s.H) (s anti-real, H Hermitian) is unitary, any ordered fold of such
+   propagators (the fold shape of C01_sv_run_is_ordered_fold) preserves <psi|psi>, and inside a window of
+   constant H it preserves <H> and <H H>, for every number of steps and every dt list.  The premises are
+   satisfiable with non-trivial unitaries (dual-number instance).
+   NOT proved: that krylov_exp computes that exponential (validated only, tools/props/c28.py) and anything about
+   emu-mps truncation.  (B) the algebraic reason the generators are anti-Hermitian: the operator handed to krylov_exp by
    EvolveStateVector.evolve, solver_utils.evolve_pair and solver_utils.evolve_single is
    (-i * real) * (Hermitian), hence anti-Hermitian, over any commutative ring with involution and imaginary
    unit (Kops/Klaws of C06; satisfiable: C06_laws_satisfiable).  Hermiticity of the Hamiltonians is
    C06_H_hermitian (emu-sv, used below) and Proofs/MpoHamProofs.mpo_hermitian (emu-mps MPO, by reference);
-   the palindromic TDVP schedule is C02_step_kernels_symmetric.  "exp of an anti-Hermitian operator is
-   unitary" is deliberately left as a premise of the informal argument and is not axiomatised.
+   the palindromic TDVP schedule is C02_step_kernels_symmetric.
    Only final statements here. *)
 From Coq Require Import List.
-From EV Require Import Model.SvBase Model.SvHam Proofs.SvBaseProofs Proofs.SvHamProofs Proofs.AntiHermitian.
+From Coq Require Import ZArith.
+From EV Require Import Model.SvBase Model.SvHam Proofs.SvBaseProofs Proofs.SvHamProofs Proofs.AntiHermitian
+  Base.Arith Model.SvMachine Proofs.SvMachineProofs Model.StarAlg Proofs.StarAlgProofs.
+Import ListNotations.
 
 (* generator_antihermitian: (anti-real scalar) * (Hermitian matrix) is anti-Hermitian *)
 Theorem C28_generator_antihermitian : forall (o : Kops), Klaws o -> forall (I : Type) (s : o) (H : I -> I -> o),
@@ -40,3 +49,78 @@ Theorem C28_sv_generator_antihermitian :
   antihermitian o (fun k k' => kmul o (kmul o (kopp o (kI o)) dt)
                                  (Hdense o N (ham_site o omega delta e) (Uint o N U) k k')).
 Proof. exact sv_generator_antihermitian. Qed.
+
+(* ---- (A) whole-run conservation over an abstract *-algebra with exponential ----------------------- *)
+
+(* C28_generator_antihermitian restated in adjoint form (adj G = -G), the hypothesis used below *)
+Theorem C28_generator_antihermitian_adjoint_form : forall (k : Kops), Klaws k ->
+  forall (I : Type) (s : k) (H : I -> I -> k), is_antireal k s -> hermitian k H ->
+  (fun a b => kconj k (kmul k s (H b a))) = (fun a b => kopp k (kmul k s (H a b))).
+Proof. exact generator_antihermitian_adjoint_form. Qed.
+
+(* "exp of an anti-Hermitian operator is unitary", derived from the three exp laws *)
+Theorem C28_exp_antihermitian_unitary : forall (o : StarOps), StarLaws o ->
+  forall G : sM o, antihermitian_op o G -> unitary o (m_exp o G).
+Proof. exact exp_antihermitian_unitary. Qed.
+
+(* (1) every step propagator exp(s.H), s anti-real, H Hermitian, is unitary *)
+Theorem C28_propagator_unitary : forall (o : StarOps), StarLaws o ->
+  forall st, good_sstep o st -> unitary o (propagator o st).
+Proof. exact propagator_unitary. Qed.
+
+(* (2) the state after the ordered fold of ANY list of such propagators, and every intermediate state, has
+   the squared norm of the initial state *)
+Theorem C28_norm_conserved : forall (o : StarOps), StarLaws o -> forall (steps : list (sstep o)) psi,
+  Forall (good_sstep o) steps -> norm2 o (evolve o steps psi) = norm2 o psi.
+Proof. exact norm_conserved. Qed.
+
+Theorem C28_norm_conserved_at_every_step : forall (o : StarOps), StarLaws o -> forall (steps : list (sstep o)) psi,
+  Forall (good_sstep o) steps -> Forall (fun v => norm2 o v = norm2 o psi) (trajectory o steps psi).
+Proof. exact norm_conserved_trajectory. Qed.
+
+(* (3) a window of constant Hermitian H, any number of steps with any anti-real scalars (any dt list):
+   <H>, <H H> and the norm are the same at every step of the window *)
+Theorem C28_window_conserved : forall (o : StarOps), StarLaws o -> forall (H : sM o) (ss : list (sS o)) psi,
+  hermitian_op o H -> Forall (antireal_scalar o) ss ->
+  Forall (fun v => expect o H v = expect o H psi /\ expect o (m_mul o H H) v = expect o (m_mul o H H) psi /\
+                   norm2 o v = norm2 o psi)
+         (trajectory o (window o H ss) psi).
+Proof. exact window_conserved. Qed.
+
+(* the fold is C01's fold of per-step maps ... *)
+Theorem C28_evolve_is_C01_fold : forall (o : StarOps) (steps : list (sstep o)) psi,
+  evolve o steps psi = fold_left (fun s f => f s) (map (fun st => m_app o (propagator o st)) steps) psi.
+Proof. exact evolve_as_funs. Qed.
+
+(* ... so on the emu-sv step loop: if the k-th stepper call acts as the propagator of a good step, run()
+   succeeds and returns a state with the squared norm of the initial one (well-formedness as in C01) *)
+Theorem C28_sv_run_norm_conserved :
+  forall (o : StarOps), StarLaws o ->
+  forall (A : Type) (ar : Arith A) (Row UM Hm : Type)
+         (zero_row : list bool -> Row -> Row) (mask_U : list bool -> UM -> UM) (umat : A -> UM)
+         (stepper : A -> Row -> Row -> Row -> UM -> sV o -> sV o * Hm)
+         (get_ham : Row -> Row -> Row -> UM -> Hm) (is_eval : nat -> A -> bool)
+         (P : params A Row) (s0 : sV o) (t0 t1 tn : A) (rest : list A) (om d p : Row) (os ds ps : list Row)
+         (steps : list (sstep o)),
+  p_times P = t0 :: t1 :: rest -> p_omega P = om :: os -> p_delta P = d :: ds -> p_phi P = p :: ps ->
+  length os = length rest -> length ds = length rest -> length ps = length rest ->
+  lastA (p_times P) = Some tn -> a_eqb ar tn (zero ar) = false ->
+  step_funs A ar Row UM (sV o) Hm zero_row mask_U umat stepper P t0 (t1 :: rest) (om :: os) (d :: ds) (p :: ps)
+    = map (fun st => m_app o (propagator o st)) steps ->
+  Forall (good_sstep o) steps ->
+  exists sf, run ar zero_row mask_U umat stepper get_ham is_eval P s0 = Ok sf /\
+             norm2 o (sv_state sf) = norm2 o s0.
+Proof. exact sv_run_norm_conserved. Qed.
+
+(* (4) non-vacuity: the laws hold in a concrete algebra (dual numbers over Z, exp(b eps) = 1 + b eps) ... *)
+Theorem C28_laws_satisfiable : StarLaws dual_ops.
+Proof. exact dual_laws. Qed.
+
+(* ... with non-trivial unitaries and a state that really moves while its norm is conserved *)
+Theorem C28_nontrivial_instance :
+  let H : dual := (3, 0)%Z in let steps := [((0, 1), H); ((0, -5), H); ((0, 7), (2, 0))]%Z in
+  Forall (good_sstep dual_ops) steps /\
+  propagator dual_ops ((0, 1)%Z, H) = (1, 3)%Z /\
+  evolve dual_ops steps (2, 5)%Z = (2, 9)%Z /\
+  norm2 dual_ops (evolve dual_ops steps (2, 5)%Z) = norm2 dual_ops (2, 5)%Z.
+Proof. exact dual_run_conserves. Qed.
